@@ -44,7 +44,7 @@ theorem le_sabs (x : Int) : x ≤ sabs x ∧ -x ≤ sabs x := by unfold sabs; sp
 theorem pow2_4 : ((2 : Int) ^ 4) = 16 := by decide
 theorem pow2_15 : ((2 : Int) ^ 15) = 32768 := by decide
 theorem pow2_14 : ((2 : Int) ^ 14) = 16384 := by decide
-theorem pow2_2 : ((2 : Int) ^ 2) = 4 := by decide
+theorem rpow2_2 : ((2 : Int) ^ 2) = 4 := by decide
 
 /-- `silk_RSHIFT_ROUND(a, 5)` is `floor((a + 16) / 32)`. -/
 theorem rshiftRound5 (a : Int) : rshiftRound a 5 = (a + 16) / 32 := by
